@@ -1609,9 +1609,13 @@ class AnsiString:
         split_idx_len = []
         idx = 0
         for s in str_splits:
-            idx = self._s.find(s, idx)
+            if sep is None:
+                # Splits are separated by runs of whitespace which are never part of a split
+                idx = self._s.find(s, idx)
             split_idx_len.append((idx, len(s)))
             idx += len(s)
+            if sep is not None:
+                idx += len(sep)
 
         ansi_str_splits = []
         for idx, length in split_idx_len:
